@@ -117,7 +117,8 @@ def check_protocol_table(ui: int, cl: bool, te: bool, pri: int, trail: int, sett
 # ------------------------------------------------------------------ openings
 
 OPENINGS = ["ALPN h2", "prior-knowledge preface", "h2c upgrade", "h2c upgrade + follow-up stream in the same flight", "websocket upgrade", "plain HTTP/1.1", "h2c upgrade with a body (ignored)",
-            "plain HTTP/1.1 x2 pipelined", "h2c upgrade with an empty HTTP2-Settings value", "h2c upgrade without an HTTP2-Settings header", "h2c upgrade with non-default settings (small window)"]
+            "plain HTTP/1.1 x2 pipelined", "h2c upgrade with an empty HTTP2-Settings value", "h2c upgrade without an HTTP2-Settings header", "h2c upgrade with non-default settings (small window)",
+            "websocket upgrade, Connection: keep-alive, Upgrade", "websocket upgrade, Connection: keep-alive ,  upgrade"]
 
 
 class _App:
@@ -185,6 +186,13 @@ def _opening_bytes(oi: int):
         ws = WSClient()
         st["ws"] = ws
         return ws_h1_handshake(), st  # RFC 6455: the client sends frames only after it has seen the 101
+    if oi in (11, 12):
+        # the spellings browsers and proxies use for the Connection token list
+        ws = WSClient()
+        st["ws"] = ws
+        conn_value = b"keep-alive, Upgrade" if oi == 11 else b"keep-alive ,  upgrade"
+        return h1_request("GET", b"/ws", [(b"Host", b"example.com"), (b"Upgrade", b"websocket"), (b"Connection", conn_value),
+                                         (b"Sec-WebSocket-Key", b"dGhlIHNhbXBsZSBub25jZQ=="), (b"Sec-WebSocket-Version", b"13")]), st
     if oi == 5:
         return h1_request("POST", b"/plain", [(b"Host", b"example.com")], [b"abc"], "content-length"), st
     if oi == 6:
@@ -229,7 +237,7 @@ def _run_opening(oi: int, cuts, flavour: str):
                 break
         if not why and sorted(obs["versions"]) != sorted(["2:http"] * len(want)):
             why = f"scopes {obs['versions']}"
-    elif oi == 4:
+    elif oi in (4, 11, 12):
         ws = st["ws"]
         head = split_h1_head(out)
         if head is None or head[0] != 101:
@@ -271,7 +279,7 @@ STRIDE = 4 if QUICK else 1
     witnesses=[{"oi": 2, "s": 5, "flavour": 0}, {"oi": 1, "s": 3, "flavour": 1}, {"oi": 4, "s": 30, "flavour": 0}],
     budget={"quick": 150, "thorough": 600},
     per_path=60,
-    bounds="11 openings (ALPN h2, prior-knowledge preface, h2c upgrade with settings, h2c upgrade with the next stream in the same flight, websocket upgrade followed by a frame, plain request, h2c upgrade with a body, two pipelined requests, h2c upgrade with an empty / absent / non-default HTTP2-Settings value) x every two-way split of the first flight (quick: every 4th offset) x both worker flavours",
+    bounds="13 openings (ALPN h2, prior-knowledge preface, h2c upgrade with settings, h2c upgrade with the next stream in the same flight, websocket upgrade followed by a frame, plain request, h2c upgrade with a body, two pipelined requests, h2c upgrade with an empty / absent / non-default HTTP2-Settings value) x every two-way split of the first flight (quick: every 4th offset) x both worker flavours",
     encodes=["hypercorn/protocol/__init__.py::ProtocolWrapper.handle", "hypercorn/protocol/h11.py::H11Protocol._check_protocol", "hypercorn/protocol/h2.py::H2Protocol.initiate",
              "hypercorn/protocol/h11.py::H11Protocol._create_stream", "hypercorn/protocol/h11.py::H11WSConnection.__init__"],
     stubs=["tier B runtime", "ALPN is an attribute of the fake transport", "independent h11/h2/wsproto clients"],
